@@ -409,3 +409,17 @@ fn c13_wide_bar_before_brace_and_line_break() {
     pb.tick();
     assert_eq!(term.contents(), format!("{}{{\nab", "░".repeat(19)));
 }
+
+/// C09: dec() to a position above the last one the estimator sampled restarts the estimate as well.
+#[test]
+fn c09_dec_above_the_last_sampled_position() {
+    let pb = ProgressBar::with_draw_target(Some(1_000_000_000), ProgressDrawTarget::hidden());
+    std::thread::sleep(std::time::Duration::from_millis(20));
+    for _ in 0..200 {
+        pb.inc(1000);
+    }
+    std::thread::sleep(std::time::Duration::from_millis(50));
+    pb.dec(50_000);
+    assert_eq!(pb.position(), 150_000);
+    assert_eq!(pb.per_sec(), 0.0, "a backwards move is reported as progress");
+}
